@@ -22,8 +22,13 @@ Proof. exact listing_order. Qed.
 
 (* cube format: rows in cube order, row i computed from cube slice i *)
 Theorem C07_rows_v2 : forall filt cube par_names out, conv_dir2_m filt cube par_names = Some out ->
-  map cr_name out = par_names /\ out = map (conv_sed filt) cube.
+  map cr_name out = map sd_name cube /\ Permutation (map cr_name out) par_names /\ out = map (conv_sed filt) cube.
 Proof. exact rows_v2. Qed.
+
+(* ... and a cube package is accepted whatever the row order of its parameter table (refused before the repair F56) *)
+Theorem C07_rows_v2_any_table_order : forall filt cube par_names, Permutation (map sd_name cube) par_names ->
+  conv_dir2_m filt cube par_names = Some (map (conv_sed filt) cube).
+Proof. exact rows_v2_accepts. Qed.
 
 (* the two formats built from the same SEDs give the same flux and error row for every model name *)
 Theorem C07_formats_agree : forall filt files cube par_names out1 out2,
